@@ -8,9 +8,9 @@ EVIDENCE = {
                   "base.TensorDiagram.add_edge/calculate", "base.LeviCivitaTensor", "base.Tensor.is_zero", "LineTensor.covariant_tensor/contravariant_tensor",
                   "LineTensor.is_coplanar", "TensorCollection.from_tensor", "exceptions.LinearDependenceError.dependent_values"],
     "bounds": "dimension 2 and 3; every arity/kind of join and meet; all coordinates free reals (complex pairs for the 1-tensor operations); "
-              "collections of length 2 (one axis), single x collection, 2x2 broadcast of two collection axes; lines of 3-space parametrised by two "
+              "collections of length 2 (one axis), single x collection, 2x2 broadcast of two collection axes, 2x2x2 collections (three collection axes: two symbolic + six lattice elements) x single / x one-axis collection; lines of 3-space parametrised by two "
               "spanning points (surjective), contravariant representation (covariant line tensors are outside the supported kinds: built, tier attempt, not claimed; join/meet of a length-2 collection of 3-D lines with lines: undecided, not claimed)",
-    "outside": "collections longer than 2 or with more than 2 axes; complex coordinates in the coplanar-lines (Blinn) branch; floating-point rounding and inputs "
+    "outside": "collections longer than 2 or with more than 3 axes; complex coordinates in the coplanar-lines (Blinn) branch; floating-point rounding and inputs "
                "within 1e-8 of a degenerate configuration (tolerance idealised to 0)",
     "assumptions": ["np.frexp/ldexp: x = m*2^e with 2^e a positive unit variable (contract stub)", "argmax ordering constraints kept in a separate tier (DESIGN 2.6)"],
 }
